@@ -136,6 +136,9 @@ func cmdC02(args []string) error {
 		return err
 	}
 	defer tw.close()
+	if *mode == "apreq-dated" {
+		return c02apreqDated(tw, r, *maxLen) // before anything creates the process-wide cache
+	}
 	// the process-wide cache; the background cleaner is made inert (first caller's duration wins)
 	cache := service.GetReplayCache(24 * time.Hour)
 	hid := int(*seed%1000) * 1000000
